@@ -305,7 +305,25 @@ def full_empty_tests(F, R):
         R.ob('SYM-EQ', 'SYM-EQ::%s::is_empty=read==write' % fnkey(pop), ok, 'emptiness test(s): %s ; required read_position == write_position' % [x[:150] for x in emp], eqs[0].where if eqs else pop.file, pop)
 
 
+
+def queue_ring_index(F, R):
+    """spsc::Queue<T, CAPACITY>: a cursor is turned into a slot with `position % CAPACITY` - for EVERY capacity.  A mask
+    (`position & (CAPACITY - 1)`) equals the modulo only for powers of two; for capacity 3 two live cursors share slot 0 and an element is
+    returned twice while another is lost (cursors, len and is_full stay right)."""
+    for nm in ('push', 'pop'):
+        for f in F.find_fns(r'^iceoryx2_bb_lock_free::spsc::queue::Queue::<.*>::%s$' % nm):
+            rems, masks = [], []
+            for g in lib.family(F, f):
+                for s_ in g.sites:
+                    if s_.i != 'T' and s_.node[0] == 'a' and s_.node[2][0] == 'bin' and s_.node[2][1] in ('Rem', 'BitAnd'):
+                        a, b = sym_nstr(sym(g, s_.node[2][2])), sym_nstr(sym(g, s_.node[2][3]))
+                        if '_position' in a + b or 'position' in a + b:
+                            (rems if s_.node[2][1] == 'Rem' else masks).append((s_, a, b))
+            ok = bool(rems) and all('CAPACITY' in b and '-' not in b and '+' not in b for (_, a, b) in rems) and not masks
+            R.ob('SYM-EQ', 'SYM-EQ::%s::slot=position%%CAPACITY' % fnkey(f), ok, 'slot index terms: %s%s' % (['%s %% %s' % (a[:40], b) for (_, a, b) in rems], '' if not masks else ' ; masked with %s (valid only for power-of-two capacities)' % [b[:40] for (_, a, b) in masks]), (rems or masks)[0][0].where if (rems or masks) else f.file, f)
+
 def check(F, R, tier):
+    queue_ring_index(F, R)
     from . import C08
     C08.queue_capacity_roles(F, R)   # the completion queue is sized with the completion capacity (every borrowed sample can be returned)
     lib.cas_loops_fresh(R, F, r'^iceoryx2_bb_lock_free::spsc::safely_overflowing_index_queue::', 1, 'a decision computed once before the loop is stale after the first failed CAS')
